@@ -47,43 +47,22 @@ impl<'a, F: PrimeCharacteristicRing + Eq> ExecutionContext<'a, F> {
     /// Get witness value at the given index
     #[inline]
     pub fn get_witness(&self, widx: WitnessId) -> Result<F, CircuitError> {
-        let idx = widx.0 as usize;
-
-        #[cfg(debug_assertions)]
-        {
-            self.witness
-                .get(idx)
-                .and_then(Option::as_ref)
-                .map(p3_field::Dup::dup)
-                .ok_or(CircuitError::WitnessNotSet { witness_id: widx })
-        }
-
-        #[cfg(not(debug_assertions))]
-        unsafe {
-            Ok(self
-                .witness
-                .get_unchecked(idx)
-                .as_ref()
-                .unwrap_unchecked()
-                .dup())
-        }
+        // Checked in every build profile: an executor can be asked to read a witness that was
+        // never set (e.g. a private input the caller did not provide), and that must surface as
+        // an error rather than as an unchecked read of `None`.
+        self.witness
+            .get(widx.0 as usize)
+            .and_then(Option::as_ref)
+            .map(p3_field::Dup::dup)
+            .ok_or(CircuitError::WitnessNotSet { witness_id: widx })
     }
 
-    /// Set witness value at the given index.
     #[inline]
     pub fn set_witness(&mut self, widx: WitnessId, value: F) -> Result<(), CircuitError> {
-        let idx = widx.0 as usize;
-
-        #[cfg(debug_assertions)]
         let slot = self
             .witness
-            .get_mut(idx)
+            .get_mut(widx.0 as usize)
             .ok_or(CircuitError::WitnessIdOutOfBounds { witness_id: widx })?;
-
-        #[cfg(not(debug_assertions))]
-        // SAFETY: `idx` is derived from a `WitnessId` allocated against this `witness`
-        // vector at circuit compile time; the slot is guaranteed to exist.
-        let slot = unsafe { self.witness.get_unchecked_mut(idx) };
 
         if let Some(existing_value) = slot {
             if *existing_value != value {
@@ -101,7 +80,6 @@ impl<'a, F: PrimeCharacteristicRing + Eq> ExecutionContext<'a, F> {
         Ok(())
     }
 
-    /// Get private data for the current operation
     pub fn get_private_data(&self) -> Result<&NpoPrivateData, CircuitError> {
         self.non_primitive_op_private_data
             .get(self.operation_id.0 as usize)
